@@ -259,7 +259,8 @@ func KindSweep(run *ev.Run, backend string, docs []m.Doc) {
 	for _, d := range docs {
 		byID[d["_id"].(string)] = d
 	}
-	lits := []interface{}{int64(0), int64(1), int64(2), int64(-1), int64(100), float64(1.5)}
+	lits := []interface{}{int64(0), int64(1), int64(2), int64(-1), int64(100), float64(1.5),
+		[]interface{}{int64(1), "a"}, []interface{}{[]interface{}{int64(1)}}} // numbers nested in array literals are converted too
 	mk := func(op string, v interface{}, kind string) *m.Crit {
 		switch op {
 		case "in":
@@ -275,12 +276,59 @@ func KindSweep(run *ev.Run, backend string, docs []m.Doc) {
 		c.Kind = kind
 		return c
 	}
+	// literals given as pointers, structs and typed maps/slices must be normalised like document values
+	type lit struct {
+		K int16 `clover:"k"`
+	}
+	one := int32(1)
+	pone := &one
+	for name, pair := range map[string][2]interface{}{
+		"pointer to int32":        {&one, int64(1)},
+		"pointer to pointer":      {&pone, int64(1)},
+		"struct with tag":         {lit{K: 1}, map[string]interface{}{"k": int64(1)}},
+		"pointer to struct":       {&lit{K: 1}, map[string]interface{}{"k": int64(1)}},
+		"map[string]int8":         {map[string]int8{"k": 1}, map[string]interface{}{"k": int64(1)}},
+		"[]interface{int,string}": {[]interface{}{uint8(1), "a"}, []interface{}{int64(1), "a"}},
+		"[][]int16":               {[][]int16{{1}}, []interface{}{[]interface{}{int64(1)}}},
+		"nil pointer":             {(*int)(nil), nil},
+	} {
+		for _, op := range []string{"eq", "gte", "in"} {
+			var cc query.Criteria
+			var base *m.Crit
+			switch op {
+			case "eq":
+				cc, base = query.Field("x").Eq(pair[0]), m.Leaf("eq", "x", pair[1])
+			case "gte":
+				cc, base = query.Field("x").GtEq(pair[0]), m.Leaf("gte", "x", pair[1])
+			default:
+				cc, base = query.Field("x").In(pair[0], "zz"), m.In("x", pair[1], "zz")
+			}
+			want := strings.Join((&m.Q{Coll: "a", Crit: base}).Select(byID), ",")
+			ids := []string{}
+			var err error
+			pan := safely(func() {
+				var ds []*document.Document
+				ds, err = in.DB.FindAll(query.NewQuery("a").Where(cc))
+				for _, d := range ds {
+					ids = append(ids, d.ObjectId())
+				}
+			})
+			sort.Strings(ids)
+			run.Add("evaluations", 1)
+			run.Distinct("kind_cases", op+name)
+			if pan != nil || err != nil {
+				run.Violation("literal-form-error|"+op+"|"+name, fmt.Sprintf("x %s <%s>: err=%v panic=%v", op, name, err, pan), nil)
+			} else if got := strings.Join(ids, ","); got != want {
+				run.Violation("literal-form|"+op+"|"+name, fmt.Sprintf("x %s <%s> selects %d documents, the canonical literal %s selects %d", op, name, len(ids), m.Canon(pair[1]), len(strings.Split(want, ","))), nil)
+			}
+		}
+	}
 	for _, op := range []string{"eq", "neq", "gt", "gte", "lt", "lte", "in", "contains"} {
 		for _, v := range lits {
 			base := mk(op, v, "")
 			want := strings.Join((&m.Q{Coll: "a", Crit: base}).Select(byID), ",")
 			for _, kind := range drv.NumericKinds {
-				if drv.AsKind(v, kind) == v && kind != "int64" && kind != "float64" {
+				if m.Canon(drv.AsKind(v, kind)) == m.Canon(v) && kind != "int64" && kind != "float64" {
 					continue // literal not representable in this kind
 				}
 				c := mk(op, v, kind)
